@@ -23,7 +23,7 @@ KINDS = ("noise", "tones", "ar", "int")
 @st.composite
 def base_case(draw, rows, dtype="complex"):
     row = draw(st.sampled_from(rows))
-    x = draw(gen.signal(16, 64, dtype, kinds=KINDS, noise_levels=(0.1, 1.0)))
+    x = draw(gen.signal(n=draw(gen.lengths(16, 64)), dtype=dtype, kinds=KINDS, noise_levels=(0.1, 1.0)))
     x = est.sanitize(row, x)
     N = x["n"]
     p = draw(est.params(row, N, dtype == "complex"))
